@@ -361,7 +361,13 @@ class Contracts:
             try:
                 # (judged from the class of the combination and the children's own results only: how the
                 # library passes the operator around internally is not the contract's business)
-                r0, r1 = out.children[0].result, out.children[1].result
+                ch = getattr(out, "children", None)
+                if ch is None or len(ch) != 2:
+                    # the returned view does not expose the operands' views: nothing to compare here (the property
+                    # checks judge the result against the model; evals without a verdict are counted)
+                    K.evals["K2:no-operand-views"] += 1
+                    return out
+                r0, r1 = ch[0].result, ch[1].result
                 sym = {"ConditionAnd": "and", "ConditionOr": "or", "ConditionXor": "xor"}.get(
                     type(self).__name__)
                 truth = {"and": lambda x, y: x and y, "or": lambda x, y: x or y,
